@@ -7,10 +7,53 @@ import world_common as wc
 MON = ["store_immutable", "first_free_name", "faithful", "fault_reported", "no_error"]
 
 
+def gen_type_flip_case(rng):
+    """a file is versioned; later it is replaced by a DIRECTORY that holds an entry named exactly like that version (a
+    restored backup, a copy of the store), and that entry is saved: its own store directory would be the stored version.
+    Whatever the daemon answers, the version stays what it was"""
+    s = wc.Script()
+    W, R = wc.WATCH, wc.R
+    wc.setup_world(s, wc.base_cfg(deb=0))
+    s.start()
+    s.exec(3, wc.X + "/vim")
+    name = rng.choice(["notes", "notes.txt", "a.tar.gz", ".rc"])
+    ext = {"notes": "", "notes.txt": ".txt", "a.tar.gz": ".tar.gz", ".rc": ""}[name]
+    sub = rng.choice(["inc", "inc/deep/er"])
+    F = "%s/%s/%s" % (W, sub, name)
+    clock = wc.CLOCK0
+    s.put(F, "first life")
+    s.write(3, F)
+    k = rng.randint(0, 3)
+    s.tick(k)
+    clock += k
+    s.dump()
+    s.timeout()
+    s.dump()
+    V = "v%d%s" % (clock, ext)
+    if rng.random() < 0.5:
+        s.restart()
+        s.exec(3, wc.X + "/vim")
+    s.rm(F)
+    s.mkdirp(F)
+    s.put(F + "/" + V, "a file named like the version")
+    s.write(3, F + "/" + V)
+    other = W + "/n"
+    s.put(other, "bystander")
+    s.write(3, other)
+    s.tick(1)
+    s.dump()
+    s.timeout()
+    s.dump()
+    return s.text(), {"errors_expected": True}
+
+
 def main(rep):
     rng = random.Random(rep.seed)
     n = 200 if rep.tier == "quick" else 4000
     cases = []
+    for i in range(max(8, n // 20)):
+        t, m = gen_type_flip_case(rng)
+        cases.append(("f%d" % i, t, m))
     for i in range(n):
         t, m = wc.gen_collision_case(rng)
         cases.append(("c%d" % i, t, m))
@@ -22,7 +65,7 @@ def main(rep):
     wk.standard_main(rep, cases=cases, monitors=MON, crash=True, fault=True, only=only,
                      crash_monitors=["store_immutable"], fault_monitors=["store_immutable", "fault_reported"],
                      rule=("up to 12 versions of one file inside one version timestamp, with 0-4 of the wanted names (base, -1 .. -5) already taken by "
-                           "pre-existing files or a directory, restarts in between; plus random mixed histories; every crash point and single fault of the passes that meet a taken name (thorough: "
+                           "pre-existing files or a directory, restarts in between; a versioned file replaced by a directory holding an entry named like that version, which is then saved (the stored version is where a directory would be needed); plus random mixed histories; every crash point and single fault of the passes that meet a taken name (thorough: "
                            "of all scenario families); monitors: no store file changes or disappears between consecutive dumps, every new version took the first free name"))
 
 
